@@ -201,8 +201,8 @@ class P:
             typ = self.peek()
             if typ == "ODATA_IDENTIFIER":
                 seg = self.next()[1]
-                # the library keeps only the *name* of inner segments
-                owner = T.A(owner, seg[1])
+                # an inner segment keeps its qualified name as written (ns.b)
+                owner = T.A(owner, ".".join(seg[2][1:] + (seg[1],)))
             elif typ in ("ANY", "ALL"):
                 op = "Any" if self.next()[0] == "ANY" else "All"
                 self.expect("(")
